@@ -176,7 +176,11 @@ func joinFrags(fr []string) string {
 // RepoPyFiles lists every .py file of the repository (sorted).
 func RepoPyFiles() []string {
 	var out []string
-	filepath.Walk("/repo", func(p string, info os.FileInfo, err error) error {
+	root := os.Getenv("VERIF_REPO")
+	if root == "" {
+		root = "/repo"
+	}
+	filepath.Walk(root, func(p string, info os.FileInfo, err error) error {
 		if err != nil {
 			return nil
 		}
